@@ -55,6 +55,11 @@ def plan(ctx):
     for i, text in enumerate(["l | map(g)", "k + g(k)", "g(1) if l else k"]):
         obs.append(Obligation(f"O4.ast_names.t{i}", "xh", "c01", "api_ast_names", param={"text": text}, timeout=T * 2,
                               bounds="N>=1 unbounded; host list <= 3", desc=f"eval({text!r}, ast_names={{g: lambda, k: expr}}): definitions and the lambdas they create are charged to this call"))
+    from sqv.harness import c01 as h
+    for i, text in enumerate(h.REENTRANT):
+        obs.append(Obligation(f"O4.reentrant.t{i}", "xh", "c01", "api_reentrant", param={"text": text}, timeout=T * 2,
+                              bounds="outer budget N and inner budget unbounded; host list <= 2",
+                              desc=f"eval({text!r}) where host `re` calls eval() on the same parser and names: the outer call's own node evaluations obey ITS budget"))
     for i, (d, u) in enumerate(CROSS):
         obs.append(Obligation(f"O6.cross_eval.t{i}", "xh", "c01", "cross_eval", param={"define": d, "use": u}, timeout=T * 2,
                               bounds="N1>=4, N2>=1 unbounded; 0..3 intervening evals",
